@@ -221,7 +221,13 @@ class Interp:
                 return
             fr.locals[t.id] = v
         elif isinstance(t, (ast.Tuple, ast.List)):
-            items = self.iterate(c, v, t)
+            if isinstance(v, Ref) and isinstance(c.cell(v).data, SymSeq):
+                seq = c.cell(v).data
+                if not c.branch(z(seq.length, "int") == len(t.elts)):
+                    raise py_exc(ValueError, "unpack arity")
+                items = [seq.elem(c, i) for i in range(len(t.elts))]
+            else:
+                items = self.iterate(c, v, t)
             if len(items) != len(t.elts):
                 raise py_exc(ValueError, "unpack arity")
             for tt, vv in zip(t.elts, items):
@@ -374,6 +380,8 @@ class Interp:
         if "ghost_locals" in spec:
             env.update(spec["ghost_locals"](c, fr))
         c.prove(f"{tag}.inv.entry", c.proving(inv, c, fr, entry), s)
+        if "entry_check" in spec:
+            c.prove(f"{tag}.entry-check", c.proving(spec["entry_check"], c, fr), s)
         shapes = spec.get("shapes", {})
         for n in list(self.assigned_names(s.body)) + list(extra_names):
             if n in env and n not in spec.get("keep", ()):
